@@ -1,4 +1,10 @@
+pub mod c01;
+pub mod c03;
+pub mod c06;
+pub mod c09;
 pub mod c15;
+pub mod hist;
+pub mod names;
 
 use crate::ctx::{Ctx, Tier};
 use serde_json::Value;
@@ -12,13 +18,25 @@ struct Entry {
     replay: fn(&Ctx, &Value),
 }
 
-const TABLE: &[Entry] = &[Entry {
-    id: "C15",
-    level: "exploration",
-    budget: (50, 900),
-    run: c15::run,
-    replay: c15::replay,
-}];
+macro_rules! entry {
+    ($id:expr, $level:expr, $q:expr, $t:expr, $m:ident) => {
+        Entry {
+            id: $id,
+            level: $level,
+            budget: ($q, $t),
+            run: $m::run,
+            replay: $m::replay,
+        }
+    };
+}
+
+const TABLE: &[Entry] = &[
+    entry!("C01", "model_checking", 50, 1500, c01),
+    entry!("C03", "model_checking", 50, 1500, c03),
+    entry!("C06", "model_checking", 50, 1500, c06),
+    entry!("C09", "model_checking", 50, 1500, c09),
+    entry!("C15", "exploration", 50, 900, c15),
+];
 
 pub fn dispatch(prop: &str, tier: Tier, replay: Option<&str>) -> i32 {
     let e = match TABLE.iter().find(|e| e.id == prop) {
